@@ -106,6 +106,32 @@ def frameDataHasAlpha (data : Bytes) : Bool :=
   else if byteAt data 0 = 0x2f then le32 data 1 / 268435456 % 2 ≠ 0
   else false
 
+/-- mux.go splitAlphaAndBitstream: (alphaData — `none` is Go's nil —, bitstream) -/
+def splitAlphaAndBitstream (data : Bytes) : Option Bytes × Bytes :=
+  if data.length ≥ chunkHeaderSize ∧ le32 data 0 = ccALPH then
+    let alphSize := le32 data 4
+    let alphEnd := chunkHeaderSize + alphSize
+    if alphEnd ≤ data.length then
+      let rest := if alphSize % 2 ≠ 0 ∧ alphEnd < data.length then alphEnd + 1 else alphEnd
+      (some ((data.take alphEnd).drop chunkHeaderSize), data.drop rest)
+    else (none, data)
+  else (none, data)
+
+/-- mux.go frameDimensions (0,0 when the header cannot be parsed) -/
+def frameDimensions (data : Bytes) : Nat × Nat :=
+  let bs := (splitAlphaAndBitstream data).2
+  let tryVP8 : Nat × Nat :=
+    if bs.length ≥ 10 then
+      match parseVP8Dimensions bs with
+      | .ok (w, h) => (w, h)
+      | _ => (0, 0)
+    else (0, 0)
+  if bs.length ≥ 5 ∧ byteAt bs 0 = 0x2f then
+    match parseVP8LDimensions bs with
+    | .ok (w, h, _) => (w, h)
+    | _ => tryVP8
+  else tryVP8
+
 def parseANIM (st : State) (data : Bytes) : R State :=
   if data.length < animChunkSize then .err .invalidANIM
   else .ok { st with bgColor := le32 data 0, loopCount := le16 data 4 }
@@ -187,9 +213,12 @@ def parseSingleExtendedFrame (st : State) (payload : Bytes) : R State := do
   | some imageData =>
     let hasAlpha := (alph.getD []).length > 0
     let hasAlpha := if !hasAlpha then frameDataHasAlpha imageData else hasAlpha
+    let (fw, fh) := frameDimensions imageData
+    let (width, height) := if fw > 0 ∧ fh > 0 then (fw, fh)
+                           else (st.features.width, st.features.height)
     pure { st with frames := [{
-      data := some imageData, alphaData := alph, width := st.features.width,
-      height := st.features.height, hasAlpha := hasAlpha, isKeyframe := true }] }
+      data := some imageData, alphaData := alph, width := width,
+      height := height, hasAlpha := hasAlpha, isKeyframe := true }] }
 
 /-- chunk loop of parseExtended -/
 def extLoop (fuel : Nat) (st : State) (payload : Bytes) (pos : Nat) : R State :=
